@@ -13,14 +13,18 @@ from checks import scan_common as sc
 
 CLAIM = {
     "level": "proof",
-    "text": "Coq theorems over a line-by-line model of scanner.Scan and all its sub-scanners (XGo dialect) for every byte "
-            "string and both comment modes; the model is tied to the code on every run by an exhaustive short-string "
-            "(<=3 symbols over 53) plus seeded structured differential run of the extracted model against the real scanner "
-            "(tokens, offsets, literals, error offsets), and the four clauses are evaluated directly on the real output.",
-    "note": "Trusted: Coq kernel, extraction, harness. unicode.IsLetter/IsDigit are Section variables instantiated from Go's "
-            "tables. Not modelled: token.File line tables. Carve-outs stated in the theorems: inserted semicolons have an empty "
-            "or newline extent; leading BOM; ILLEGAL for an invalid UTF-8 byte carries U+FFFD; CSTRING/PYSTRING literals start "
-            "after the c / py prefix; comment and raw-string literals are the source text with carriage returns deleted by stripCR.",
+    "text": "Coq theorems (no axioms) over a line-by-line model of scanner.Scan and every sub-scanner, for every byte string and both "
+            "comment modes: Scan never panics and the stream ends with EOF within 2|src|+3 steps (all three scanner dialects); at most one "
+            "token per byte besides inserted semicolons; offsets monotone and token texts disjoint; every literal/spelling is the source "
+            "text at its offset; with comments on every other byte is blank. The model is tied to the code on every run by an exhaustive "
+            "short-string (<=3 of 53 byte symbols; <=5 / <=3 lexemes at token level) plus seeded structured differential run of the "
+            "extracted model against the real scanner (tokens, offsets, literals, error offsets), and the four clauses are evaluated "
+            "directly on the real output.",
+    "note": "Trusted: Coq kernel, extraction, harness. unicode.IsLetter/IsDigit are Section variables instantiated from Go's tables. Not "
+            "modelled: token.File line tables. Carve-outs stated in the theorems (lit_ok): inserted semicolons have an empty or newline "
+            "extent; leading BOM; ILLEGAL carries string(ch) (U+FFFD for an invalid byte); CSTRING/PYSTRING literals start after the c / py "
+            "prefix; comment and raw-string literals are the source text with carriage returns deleted (cr_del). Sub-scanner loops run on "
+            "local fuel S|rest| that is proved sufficient (C15_local_fuel_sufficient).",
 }
 
 
